@@ -511,6 +511,204 @@ fn res_tx(r: Result<Transaction, bsv::BSVErrors>) -> String {
     }
 }
 
+
+/// `tx.steps W E S`: ONE transaction object taken through observe / mutate / observe sequences.
+/// S = `,`-separated steps:  j c (observe through JSON / CBOR)  h (warm the sighash cache)  k (continue on a clone)
+/// r R (continue on the JSON / CBOR round-tripped object)  v<n> l<n> (set_version / set_nlocktime)
+/// V<n> L<n> (continue on the clone they return)  iq<i>:<n> io<i>:<n> ia<i>:<n> (sequence / vout / satoshis of input i through
+/// get_input, setter, set_input)  il<i>:<bytes> iu<i>:<bytes> (locking / unlocking script)  ip<i>:<bytes> (prev_tx_id)
+/// ai pi ni<i> (add / prepend / insert a fixed input)  ao<n> po<n> no<i>:<n> so<i>:<n> (add / prepend / insert / set an output)
+fn steps_op(start: Transaction, steps: &str) -> String {
+    let mut cur = start;
+    let mut out = String::from("OK:v");
+    let new_in = || TxIn::new(&[0x77u8; 32], 9, &Script::from_script_bits(vec![ScriptBit::OpCode(OpCodes::OP_2)]), Some(8));
+    let new_out = |v: u64| TxOut::new(v, &Script::from_script_bits(vec![ScriptBit::OpCode(OpCodes::OP_3)]));
+    fn idx_val(rest: &str) -> Option<(usize, &str)> {
+        let (i, v) = rest.split_once(':')?;
+        Some((i.parse().ok()?, v))
+    }
+    for st in steps.split(',') {
+        if st.is_empty() || !st.is_ascii() {
+            return "BADARG".into();
+        }
+        let observe = |cur: &Transaction, text: Vec<u8>, back: Result<Transaction, bsv::BSVErrors>, out: &mut String| {
+            out.push(';');
+            out.push_str(&show_bytes(&text));
+            match back {
+                Ok(t2) => {
+                    let sb = match (cur.to_bytes(), t2.to_bytes()) {
+                        (Ok(x), Ok(y)) => x == y,
+                        _ => false,
+                    };
+                    let si = match (cur.get_id_hex(), t2.get_id_hex()) {
+                        (Ok(x), Ok(y)) => x == y,
+                        _ => false,
+                    };
+                    out.push_str(&format!(";{};{}{};{}", show_tx(&t2), b(sb), b(si), cache_flags(&t2)));
+                }
+                Err(_) => out.push_str(";ERR;--;---"),
+            }
+        };
+        match st {
+            "j" => {
+                let t = match cur.to_json_string() {
+                    Ok(t) => t,
+                    Err(_) => return "SERERR".into(),
+                };
+                let back = Transaction::from_json_string(&t);
+                observe(&cur, t.into_bytes(), back, &mut out);
+                continue;
+            }
+            "c" => {
+                let t = match cur.to_compact_bytes() {
+                    Ok(t) => t,
+                    Err(_) => return "SERERR".into(),
+                };
+                let back = Transaction::from_compact_bytes(&t);
+                observe(&cur, t, back, &mut out);
+                continue;
+            }
+            "h" => {
+                if cur.get_ninputs() > 0 {
+                    let _ = cur.sighash_preimage(bsv::SigHash::InputsOutputs, 0, &Script::default(), 0);
+                }
+                continue;
+            }
+            "k" => {
+                cur = cur.clone();
+                continue;
+            }
+            "r" => {
+                cur = match cur.to_json_string().ok().and_then(|t| Transaction::from_json_string(&t).ok()) {
+                    Some(t) => t,
+                    None => return "ERR".into(),
+                };
+                continue;
+            }
+            "R" => {
+                cur = match cur.to_compact_bytes().ok().and_then(|t| Transaction::from_compact_bytes(&t).ok()) {
+                    Some(t) => t,
+                    None => return "ERR".into(),
+                };
+                continue;
+            }
+            "ai" => {
+                cur.add_input(&new_in());
+                continue;
+            }
+            "pi" => {
+                cur.prepend_input(&new_in());
+                continue;
+            }
+            _ => {}
+        }
+        let (k1, r1) = st.split_at(1);
+        let done = match k1 {
+            "v" => r1.parse::<u32>().ok().map(|n| {
+                cur.set_version(n);
+            }),
+            "l" => r1.parse::<u32>().ok().map(|n| {
+                cur.set_nlocktime(n);
+            }),
+            "V" => r1.parse::<u32>().ok().map(|n| {
+                cur = cur.set_version(n);
+            }),
+            "L" => r1.parse::<u32>().ok().map(|n| {
+                cur = cur.set_nlocktime(n);
+            }),
+            _ => None,
+        };
+        if done.is_some() {
+            continue;
+        }
+        if st.len() < 3 {
+            return "BADARG".into();
+        }
+        let (k2, r2) = st.split_at(2);
+        match k2 {
+            "iq" | "io" | "ia" | "il" | "iu" | "ip" => {
+                let (i, v) = match idx_val(r2) {
+                    Some(x) => x,
+                    None => return "BADARG".into(),
+                };
+                let mut inp = match cur.get_input(i) {
+                    Some(x) => x,
+                    None => return "BADARG".into(),
+                };
+                match k2 {
+                    "iq" => match v.parse::<u32>() {
+                        Ok(n) => inp.set_sequence(n),
+                        Err(_) => return "BADARG".into(),
+                    },
+                    "io" => match v.parse::<u32>() {
+                        Ok(n) => inp.set_vout(n),
+                        Err(_) => return "BADARG".into(),
+                    },
+                    "ia" => match v.parse::<u64>() {
+                        Ok(n) => inp.set_satoshis(n),
+                        Err(_) => return "BADARG".into(),
+                    },
+                    "ip" => match expand(v) {
+                        Some(bs) => inp.set_prev_tx_id(&bs),
+                        None => return "BADARG".into(),
+                    },
+                    _ => {
+                        let bs = match expand(v) {
+                            Some(bs) => bs,
+                            None => return "BADARG".into(),
+                        };
+                        let sc = match Script::from_bytes(&bs) {
+                            Ok(sc) => sc,
+                            Err(_) => return "ERR".into(),
+                        };
+                        if k2 == "il" {
+                            inp.set_locking_script(&sc)
+                        } else {
+                            inp.set_unlocking_script(&sc)
+                        }
+                    }
+                }
+                cur.set_input(i, &inp);
+            }
+            "ni" => match r2.parse::<usize>() {
+                Ok(i) if i <= cur.get_ninputs() => cur.insert_input(i, &new_in()),
+                _ => return "BADARG".into(),
+            },
+            "ao" => match r2.parse::<u64>() {
+                Ok(n) => cur.add_output(&new_out(n)),
+                Err(_) => return "BADARG".into(),
+            },
+            "po" => match r2.parse::<u64>() {
+                Ok(n) => cur.prepend_output(&new_out(n)),
+                Err(_) => return "BADARG".into(),
+            },
+            "no" | "so" => {
+                let (i, v) = match idx_val(r2) {
+                    Some(x) => x,
+                    None => return "BADARG".into(),
+                };
+                let n = match v.parse::<u64>() {
+                    Ok(n) => n,
+                    Err(_) => return "BADARG".into(),
+                };
+                if k2 == "no" {
+                    if i > cur.get_noutputs() {
+                        return "BADARG".into();
+                    }
+                    cur.insert_output(i, &new_out(n));
+                } else {
+                    if i >= cur.get_noutputs() {
+                        return "BADARG".into();
+                    }
+                    cur.set_output(i, &new_out(n));
+                }
+            }
+            _ => return "BADARG".into(),
+        }
+    }
+    out
+}
+
 macro_rules! get_tx {
     ($args:expr, $at:expr) => {
         match parse_tx($args, $at) {
@@ -545,6 +743,10 @@ pub fn run(op: &str, args: &[String]) -> Option<String> {
             txin_cbor_rt(&tx.get_input(0).unwrap())
         }
         "tx.cached_roundtrip" => cached_rt(&get_tx!(args, 0)),
+        "tx.steps" => {
+            let tx = get_tx!(args, 0);
+            steps_op(tx, some_or_bad!(args.get(2)))
+        }
         "bits.cached_roundtrip" => cached_rt(&bits_tx(some_or_bad!(args.get(0).and_then(|a| bits_arg(a))))),
         "tx.built_json_roundtrip" => json_rt(&rebuild(&get_tx!(args, 0))),
         "tx.built_cbor_roundtrip" => cbor_rt(&rebuild(&get_tx!(args, 0))),
